@@ -445,3 +445,267 @@ Proof. vm_compute. reflexivity. Qed.
 Example ex_c15_frames_F51 :
   match_frame_pairs false 0%Q [ (1%nat, [], [[]]); (0%nat, [1 # 2]%Q, []) ] = None.
 Proof. vm_compute. reflexivity. Qed.
+
+(* ================================================================================================== *)
+(* Round 6: the brute-force assignment references are PROVED (C15/Assign.v), and the matching clauses are
+   stated for ANY matcher answer that passes the validity contract the harness evaluates IN COQ on the real
+   answers of `hungarian_matching` (scipy) and `match_instances` (C15/Contract.v, `arun`).  All closed.
+   An assignment is a list of (row, column) pairs; `centry C p` = the entry (None = infinite cost);
+   `assignment C ps` = rows pairwise distinct, columns pairwise distinct, in range, no infinite entry;
+   `full_assignment` = every row assigned (finite matrices); `unmatched n l` = the indices < n not in l. *)
+From SV Require Import C15.Assign C15.Contract.
+
+(* hungarian_opt_inf (reference for matrices with infinite costs, any shape, any rational entries): its value is
+   attained by a valid assignment, and no valid assignment has more pairs, or as many pairs and a lower cost —
+   over ALL assignments (induction over the enumeration) *)
+Theorem c15_hungarian_ref_inf_attained : forall C : smatrix,
+  exists ps, assignment C ps /\ length ps = fst (hungarian_opt_inf C) /\
+             (acost C ps == snd (hungarian_opt_inf C))%Q.
+Proof. exact hungarian_opt_inf_attained. Qed.
+Print Assumptions c15_hungarian_ref_inf_attained.
+
+Theorem c15_hungarian_ref_inf_optimal : forall (C : smatrix) ps,
+  assignment C ps ->
+  (length ps <= fst (hungarian_opt_inf C))%nat /\
+  (length ps = fst (hungarian_opt_inf C) -> (snd (hungarian_opt_inf C) <= acost C ps)%Q).
+Proof. exact hungarian_opt_inf_optimal. Qed.
+Print Assumptions c15_hungarian_ref_inf_optimal.
+
+(* hungarian_opt (finite costs, rows consumed in order): Some v is attained by a full one-to-one assignment, v is a
+   lower bound of EVERY full assignment's cost; it is defined whenever rows <= columns, and None only if no full
+   assignment exists *)
+Theorem c15_hungarian_ref_attained : forall (C : list (list Q)) v,
+  hungarian_opt C = Some v -> exists ps, full_assignment C ps /\ (full_cost C ps == v)%Q.
+Proof. exact hungarian_opt_attained. Qed.
+Print Assumptions c15_hungarian_ref_attained.
+
+Theorem c15_hungarian_ref_optimal : forall (C : list (list Q)) ps,
+  full_assignment C ps -> exists v, hungarian_opt C = Some v /\ (v <= full_cost C ps)%Q.
+Proof. exact hungarian_opt_optimal. Qed.
+Print Assumptions c15_hungarian_ref_optimal.
+
+Theorem c15_hungarian_ref_defined : forall C : list (list Q),
+  (length C <= length (hd [] C))%nat -> hungarian_opt C <> None.
+Proof. exact hungarian_opt_defined. Qed.
+Print Assumptions c15_hungarian_ref_defined.
+
+Theorem c15_hungarian_ref_none : forall C : list (list Q),
+  hungarian_opt C = None -> forall ps, ~ full_assignment C ps.
+Proof. exact hungarian_opt_none. Qed.
+Print Assumptions c15_hungarian_ref_none.
+
+(* ANY answer of hungarian_matching that passes the checker (evaluated by coqc on scipy's real answer every run):
+   one-to-one, no infinite pair, every row / column exactly once in matched ++ unmatched, counts conserved,
+   optimal among all assignments *)
+Theorem c15_hungarian_answer_inf : forall (C : smatrix) ps,
+  hung_inf_contractb C ps = true ->
+  NoDup (map fst ps) /\ NoDup (map snd ps) /\
+  Forall (fun p => centry C p <> None) ps /\
+  Permutation (map fst ps ++ unmatched (length C) (map fst ps)) (seq 0 (length C)) /\
+  Permutation (map snd ps ++ unmatched (length (hd [] C)) (map snd ps)) (seq 0 (length (hd [] C))) /\
+  (length ps + length (unmatched (length C) (map fst ps)) = length C)%nat /\
+  (length ps + length (unmatched (length (hd [] C)) (map snd ps)) = length (hd [] C))%nat /\
+  forall ps', assignment C ps' ->
+    (length ps' <= length ps)%nat /\ (length ps' = length ps -> (acost C ps <= acost C ps')%Q).
+Proof. exact hung_inf_contract_clauses. Qed.
+Print Assumptions c15_hungarian_answer_inf.
+
+Theorem c15_hungarian_answer_inf_satisfiable : forall C : smatrix, exists ps, hung_inf_contractb C ps = true.
+Proof. exact hung_inf_contract_satisfiable. Qed.
+Print Assumptions c15_hungarian_answer_inf_satisfiable.
+
+Theorem c15_hungarian_answer : forall (C : list (list Q)) ps,
+  hung_contractb C ps = true ->
+  NoDup (map fst ps) /\ NoDup (map snd ps) /\
+  Permutation (map fst ps) (seq 0 (length C)) /\
+  (length C + length (unmatched (length (hd [] C)) (map snd ps)) = length (hd [] C))%nat /\
+  forall ps', full_assignment C ps' -> (full_cost C ps <= full_cost C ps')%Q.
+Proof. exact hung_contract_clauses. Qed.
+Print Assumptions c15_hungarian_answer.
+
+Theorem c15_hungarian_answer_satisfiable : forall C : list (list Q),
+  (length C <= length (hd [] C))%nat -> exists ps, hung_contractb C ps = true.
+Proof. exact hung_contract_satisfiable. Qed.
+Print Assumptions c15_hungarian_answer_satisfiable.
+
+(* ANY answer (pairs, missed) of match_instances that passes the checker (evaluated by coqc on the real answer
+   every run): each gt / prediction at most once, matched ++ missed = every gt exactly once, counts conserved on
+   both sides (|pairs| + |missed| = n_gt, |pairs| + |unmatched predictions| = n_pr), every pair is an entry of
+   the OKS matrix strictly above the threshold *)
+Theorem c15_match_answer_contract : forall n_gt n_pr M thr ms missed,
+  match_contractb n_gt n_pr M thr ms missed = true ->
+  NoDup (map gt_of ms) /\ NoDup (map pr_of ms) /\ NoDup missed /\
+  (forall g, In g (map gt_of ms) -> ~ In g missed) /\
+  Permutation (map gt_of ms ++ missed) (seq 0 n_gt) /\
+  (forall g, (g < n_gt)%nat -> count_occ Nat.eq_dec (map gt_of ms ++ missed) g = 1%nat) /\
+  (forall p, (count_occ Nat.eq_dec (map pr_of ms) p <= 1)%nat) /\
+  (length ms + length missed = n_gt)%nat /\
+  (length ms + length (unmatched n_pr (map pr_of ms)) = n_pr)%nat /\
+  (length ms <= n_gt)%nat /\ (length ms <= n_pr)%nat /\
+  Forall (fun m => (gt_of m < n_gt)%nat /\ (pr_of m < n_pr)%nat /\
+                   (exists o, mget M (gt_of m) (pr_of m) = Some o /\ (o == oks_of m)%Q /\ eligible thr o)) ms.
+Proof. exact match_contract_clauses. Qed.
+Print Assumptions c15_match_answer_contract.
+
+(* the coded algorithm (both models of match_instances) meets that contract on every frame *)
+Theorem c15_match_model_meets_contract : forall fixed n_gt scores M thr ms missed,
+  match_instances fixed n_gt scores M thr = Some (ms, missed) ->
+  match_contractb n_gt (length scores) M thr ms missed = true.
+Proof. exact match_instances_meets_contract. Qed.
+Print Assumptions c15_match_model_meets_contract.
+
+Theorem c15_match_gen_model_meets_contract : forall fixed n_gt prs M thr ms missed,
+  match_instances_gen fixed n_gt prs M thr = Some (ms, missed) ->
+  match_contractb n_gt (length prs) M thr ms missed = true.
+Proof. exact match_instances_gen_meets_contract. Qed.
+Print Assumptions c15_match_gen_model_meets_contract.
+
+(* non-vacuity: a 3 x 3 matrix with infinite entries: the greedy-looking answer [(0,0);(1,1)] (cost 1+1, 2 pairs)
+   fails the contract because 3 finite pairs exist; the 3-pair answer passes *)
+Example ex_c15_hungarian_contract_inf :
+  let C := [[Some 1; Some 2; None]; [Some 2; Some 1; Some 5]; [None; None; Some 7]]%Q in
+  hungarian_opt_inf C = (3%nat, 9%Q) /\
+  hung_inf_contractb C [(0, 0); (1, 1); (2, 2)]%nat = true /\
+  hung_inf_contractb C [(0, 0); (1, 1)]%nat = false /\
+  hung_inf_contractb C [(0, 0); (1, 0); (2, 2)]%nat = false.
+Proof. vm_compute. repeat split; reflexivity. Qed.
+
+Example ex_c15_hungarian_contract_fin :
+  let C := [[4; 1; 3]; [2; 0; 5]]%Q in
+  hungarian_opt C = Some 3%Q /\
+  hung_contractb C [(0, 1); (1, 0)]%nat = true /\ hung_contractb C [(1, 0); (0, 1)]%nat = true /\
+  hung_contractb C [(0, 0); (1, 1)]%nat = false /\ hung_contractb C [(0, 1)]%nat = false.
+Proof. vm_compute. repeat split; reflexivity. Qed.
+
+Example ex_c15_match_contract :
+  let M := [[Some (1 # 4); Some (3 # 4)]; [Some (1 # 2); Some (3 # 4)]]%Q in
+  match_contractb 2 2 M 0%Q [(0%nat, 1%nat, (3 # 4)%Q); (1%nat, 0%nat, (1 # 2)%Q)] [] = true /\
+  match_contractb 2 2 M 0%Q [(0%nat, 1%nat, (3 # 4)%Q); (1%nat, 1%nat, (3 # 4)%Q)] [] = false /\   (* prediction twice *)
+  match_contractb 2 2 M 0%Q [(0%nat, 1%nat, (3 # 4)%Q)] [] = false /\                                (* a gt lost *)
+  match_contractb 2 2 M (3 # 4)%Q [(0%nat, 1%nat, (3 # 4)%Q)] [1%nat] = false.                       (* not above thr *)
+Proof. vm_compute. repeat split; reflexivity. Qed.
+
+(* ================================================================================================== *)
+(* Round 6, OKS clauses sharpened (C15/OksMore.v; same model `oks_pair` / `oks_val`, same domain; Reals). *)
+From SV Require Import C15.OksMore.
+
+(* "never increases when a predicted keypoint moves farther": ANY number of keypoints at once.
+   `farther gk pk pk'` = pk' is missing (NaN = infinitely far), or both are present and pk' is at least as far
+   from gk as pk.  c15_oks_monotone (one keypoint) and c15_pr_missing_never_better are the special cases. *)
+Theorem c15_oks_monotone_all : forall coco sc sds g p p',
+  scale_ok sc -> sds_ok sds -> (1 <= n_visible g)%nat -> length p = length p' ->
+  Forall (fun t => farther (fst (fst t)) (snd (fst t)) (snd t)) (zip3 g p p') ->
+  oks_val (oks_pair coco sc sds g p') <= oks_val (oks_pair coco sc sds g p).
+Proof. exact oks_pair_monotone_all. Qed.
+Print Assumptions c15_oks_monotone_all.
+
+(* "equals 1 for identical poses" as an equivalence: OKS = 1 exactly when every gt keypoint is missing (ignored)
+   or has a present prediction at distance 0.  `hit gk pk` = missing gk \/ (pk present /\ dist2 gk pk == 0). *)
+Theorem c15_oks_one_iff : forall coco s sds g p,
+  (0 <= s)%Q -> sds_ok sds -> (1 <= n_visible g)%nat -> length g = length p -> (length g <= length sds)%nat ->
+  (oks_val (oks_pair coco (Some s) sds g p) = 1 <-> Forall (fun t => hit (fst t) (snd t)) (combine g p)).
+Proof. exact oks_pair_one_iff. Qed.
+Print Assumptions c15_oks_one_iff.
+
+(* "missing in the prediction = complete miss": the term of a present prediction tends to 0 — the term of a
+   missing one (c15_pr_missing_is_complete_miss) — as its distance grows: below any eps > 0 beyond some distance *)
+Theorem c15_term_vanishes_with_distance : forall coco s sd,
+  (0 < sd)%Q -> (0 <= s)%Q -> forall eps : R, 0 < eps ->
+  exists D : Q, forall g p, missing g = false -> missing p = false -> (D <= dist2 g p)%Q ->
+    val (ks_arg coco (Some s) sd g p) < eps.
+Proof. exact ks_term_vanishes_with_distance. Qed.
+Print Assumptions c15_term_vanishes_with_distance.
+
+(* non-vacuity: three keypoints, the second gt keypoint missing; prediction p' moves keypoint 0 farther and loses
+   keypoint 2 at once; and a pose that hits every visible gt keypoint although it differs at the missing node *)
+Example ex_c15_farther_all :
+  let g  := [[Some 0; Some 0]; [None; Some 1]; [Some 4; Some 4]]%Q in
+  let p  := [[Some 1; Some 0]; [Some 9; Some 9]; [Some 4; Some 5]]%Q in
+  let p' := [[Some 2; Some 0]; [Some 9; Some 9]; [None; None]]%Q in
+  Forall (fun t => farther (fst (fst t)) (snd (fst t)) (snd t)) (zip3 g p p') /\ n_visible g = 2%nat.
+Proof.
+  split; [|reflexivity]. cbn [zip3].
+  apply Forall_cons; [|apply Forall_cons; [|apply Forall_cons; [|apply Forall_nil]]]; cbn [fst snd].
+  - right. split; [reflexivity|]. split; [reflexivity|]. vm_compute. discriminate.
+  - right. split; [reflexivity|]. split; [reflexivity|]. vm_compute. discriminate.
+  - left. reflexivity.
+Qed.
+
+Example ex_c15_one_iff_hit :
+  let g := [[Some 0; Some 0]; [None; Some 1]; [Some 4; Some 4]]%Q in
+  let p := [[Some 0; Some 0]; [Some 9; Some 9]; [Some 4; Some 4]]%Q in
+  Forall (fun t => hit (fst t) (snd t)) (combine g p) /\ g <> p /\
+  ~ Forall (fun t => hit (fst t) (snd t)) (combine g [[Some 0; Some 0]; [Some 9; Some 9]; [Some 4; Some 5]]%Q).
+Proof.
+  split; [|split].
+  - cbn [combine]. apply Forall_cons; [|apply Forall_cons; [|apply Forall_cons; [|apply Forall_nil]]]; cbn [fst snd].
+    + right. split; reflexivity.
+    + left. reflexivity.
+    + right. split; reflexivity.
+  - discriminate.
+  - intros H. inversion H as [|? ? _ H1]; subst. inversion H1 as [|? ? _ H2]; subst.
+    inversion H2 as [|? ? H3 _]; subst. cbn [fst snd] in H3. destruct H3 as [H3|[_ H3]]; vm_compute in H3; discriminate.
+Qed.
+
+(* reordering the KEYPOINTS (nodes) of both poses, the per-node stddevs with them, leaves the entry unchanged (any
+   given scale; structural, no domain needed).  The (gt keypoint, predicted keypoint, stddev) triples are permuted. *)
+Theorem c15_oks_keypoint_reorder : forall coco sc sds sds' g g' p p',
+  length g = length p -> length g = length sds -> length g' = length p' -> length g' = length sds' ->
+  Permutation (zip3 g p sds) (zip3 g' p' sds') ->
+  oks_val (oks_pair coco sc sds g p) = oks_val (oks_pair coco sc sds' g' p').
+Proof. exact oks_pair_keypoint_perm. Qed.
+Print Assumptions c15_oks_keypoint_reorder.
+
+Example ex_c15_keypoint_reorder :
+  Permutation (zip3 [[Some 0; Some 0]; [None; Some 1]]%Q [[Some 1; Some 0]; [Some 9; Some 9]]%Q [1 # 40; 1 # 20]%Q)
+              (zip3 [[None; Some 1]; [Some 0; Some 0]]%Q [[Some 9; Some 9]; [Some 1; Some 0]]%Q [1 # 20; 1 # 40]%Q).
+Proof. cbn [zip3]. apply perm_swap. Qed.
+
+(* with the AUTOMATIC scale (bounding-box area of the gt pose) the scale itself is unchanged by the reordering
+   (`area` of permuted keypoints is the same number), so the whole entry is invariant *)
+Theorem c15_area_keypoint_reorder : forall n_ed g g',
+  Permutation g g' -> ceq (area n_ed g) (area n_ed g').
+Proof. exact area_keypoint_perm. Qed.
+Print Assumptions c15_area_keypoint_reorder.
+
+Theorem c15_oks_keypoint_reorder_auto_scale : forall coco n_ed sds sds' g g' p p',
+  length g = length p -> length g = length sds -> length g' = length p' -> length g' = length sds' ->
+  Permutation (zip3 g p sds) (zip3 g' p' sds') ->
+  oks_val (oks_pair coco (area n_ed g) sds g p) = oks_val (oks_pair coco (area n_ed g') sds' g' p').
+Proof. exact oks_pair_keypoint_perm_auto. Qed.
+Print Assumptions c15_oks_keypoint_reorder_auto_scale.
+
+(* finite costs with MORE ROWS THAN COLUMNS (n > m): the checker `hung_contract_tb` takes the original matrix and the
+   original answer, coqc transposes (`transpose`, proved to be the transpose of a rectangular matrix) and swaps the
+   pairs.  Any answer passing: rows distinct, every column exactly once, and no assignment that uses every column
+   once (`col_full_assignment`: rows distinct, |ps0| = m, in range) is cheaper — costs read on the ORIGINAL matrix. *)
+Theorem c15_hungarian_answer_transposed : forall (C : list (list Q)) ps,
+  hung_contract_tb C ps = true ->
+  NoDup (map fst ps) /\ NoDup (map snd ps) /\
+  Permutation (map snd ps) (seq 0 (length (hd [] C))) /\
+  forall ps0, col_full_assignment C (transpose C) ps0 -> (full_cost C ps <= full_cost C ps0)%Q.
+Proof. exact hung_contract_t_clauses. Qed.
+Print Assumptions c15_hungarian_answer_transposed.
+
+Theorem c15_transpose_correct : forall C : list (list Q),
+  Forall (fun row => length row = length (hd [] C)) C ->
+  (forall r c, nth c (nth r C []) 0%Q = nth r (nth c (transpose C) []) 0%Q) /\
+  length (transpose C) = length (hd [] C) /\
+  ((0 < length (hd [] C))%nat -> length (hd [] (transpose C)) = length C).
+Proof. intros C H. split; [exact (transpose_is_transpose C H)|exact (transpose_dims C)]. Qed.
+Print Assumptions c15_transpose_correct.
+
+Example ex_c15_hungarian_contract_transposed :
+  let C := [[4; 2]; [1; 0]; [3; 5]]%Q in
+  hung_contract_tb C [(1, 0); (0, 1)]%nat = true /\ hung_contract_tb C [(0, 1); (1, 0)]%nat = true /\
+  hung_contract_tb C [(0, 0); (1, 1)]%nat = false /\ hung_contract_tb C [(1, 0); (2, 0)]%nat = false /\
+  col_full_assignment C (transpose C) [(2, 0); (0, 1)]%nat.
+Proof.
+  cbv zeta. split; [vm_compute; reflexivity|]. split; [vm_compute; reflexivity|].
+  split; [vm_compute; reflexivity|]. split; [vm_compute; reflexivity|].
+  unfold col_full_assignment. cbn [map fst snd].
+  split; [apply (proj1 (nodupb_ok [2; 0]%nat)); reflexivity|].
+  split; [apply (proj1 (nodupb_ok [0; 1]%nat)); reflexivity|].
+  split; [reflexivity|].
+  intros p [E|[E|[]]]; subst p; vm_compute; split; repeat constructor.
+Qed.
